@@ -273,13 +273,30 @@ func runSST(args []string) error {
 				return err
 			}
 			sstables.VerifOnWriterOpen = nil
+			var keyScratch, valScratch []byte
 			for _, wr := range c.Writes {
 				failData, failIndex = wr.Fault == "data", wr.Fault == "index"
 				wkey := keys[wr.K]
 				if wr.Alt && c.Cmp == "nocase" {
 					wkey = bytes.ToUpper(wkey)
 				}
-				err := w.WriteNext(wkey, vb(wr.V))
+				// the caller's buffers are reused: the writer may keep nothing of them beyond the call
+				keyScratch = append(keyScratch[:0], wkey...)
+				var valArg []byte
+				if v := vb(wr.V); v != nil {
+					valScratch = append(valScratch[:0], v...)
+					valArg = valScratch[:len(v):len(v)]
+					if len(v) == 0 {
+						valArg = []byte{}
+					}
+				}
+				err := w.WriteNext(keyScratch[:len(wkey):len(wkey)], valArg)
+				for i := range keyScratch {
+					keyScratch[i] = 0xEE
+				}
+				for i := range valScratch {
+					valScratch[i] = 0xEE
+				}
 				if err == nil {
 					spelled[wr.K] = wkey
 				}
